@@ -385,8 +385,10 @@ func runC05(c *Ctx) {
 		"Multiply":     {"cell{val((" + aL + " * " + aR + "))}"},
 		"Divide":       {"cell{val((" + aL + " / " + aR + "))}"},
 		"Percent":      {"cell{val((int(" + aL + ") % int(" + aR + ")))}"},
-		"Tilde":        {t, "cell{val((*regexp.Regexp).MatchString(regexp.Compile(*R.Value.Str)#0, String(&L.Value)))}"},
-		"BangTilde":    {f, "cell{val(!(*regexp.Regexp).MatchString(regexp.Compile(*R.Value.Str)#0, String(&L.Value)))}"},
+		// the verdict of the match and nothing else: a constant answer for some operands (the same cell on
+		// both sides, a string equal to the pattern text) skips the match and the compile error (F-30)
+		"Tilde":        {"cell{val((*regexp.Regexp).MatchString(regexp.Compile(*R.Value.Str)#0, String(&L.Value)))}"},
+		"BangTilde":    {"cell{val(!(*regexp.Regexp).MatchString(regexp.Compile(*R.Value.Str)#0, String(&L.Value)))}"},
 		"Equal":        {"evalAssignment(e, expr, L, R)#0"},
 		"Dot":          {"GetMember(&L.Value, R.Value)#0", "cell{val(nil) with {Str: &String(&R.Value), Num: R.Value.Num, ParentObj: &L.Value}}"},
 		"LSquare":      {"GetMember(&L.Value, R.Value)#0", "cell{val(nil) with {Str: &String(&R.Value), Num: R.Value.Num, ParentObj: &L.Value}}"},
@@ -859,10 +861,20 @@ func c05Unary(c *Ctx, eu *ssa.Function, m *prattModel) {
 		"Bang":       {"cell{val(!isTruthy(&X.Value))}"},
 		"Plus":       {"cell{val(" + a + ")}"},
 		"Minus":      {"cell{val(-" + a + ")}"},
-		"PlusPlus":   {"cell{val(" + a + ")}", "cell{X.Value}"},
-		"MinusMinus": {"cell{val(" + a + ")}", "cell{X.Value}"},
+		"PlusPlus":   {"cell{val(" + a + ")}", "cell{STORED}"},
+		"MinusMinus": {"cell{val(" + a + ")}", "cell{STORED}"},
 	}
 	for op, want := range oracle {
+		if op == "PlusPlus" || op == "MinusMinus" {
+			// the prefix form yields the value that was stored (incdec-prefix-result decides which forms
+			// are that value)
+			for v := range got[op] {
+				if incdecStoredForm(v) {
+					delete(got[op], v)
+					got[op]["cell{STORED}"] = true
+				}
+			}
+		}
 		miss, extra := diffSets(got[op], setOf(want))
 		c.check(len(miss)+len(extra) == 0, "R3", "unary operator "+op, p.Pos(eu.Pos()), strings.Join(want, " ; "), fmt.Sprintf("unary %s computes {%s}; documented {%s}", op, keysOf(got[op]), strings.Join(want, " ; ")))
 	}
@@ -928,7 +940,10 @@ func incdecTable(c *Ctx, rule string, eu *ssa.Function) {
 		if *pf {
 			c.check(v == "cell{val(asFloat64(&X.Value))}", rule, "incdec-postfix-result", p.InstrPos(rc.Ret), "postfix yields the old number", "the postfix form yields "+v)
 		} else {
-			c.check(v == "cell{X.Value}", rule, "incdec-prefix-result", p.InstrPos(rc.Ret), "prefix yields the updated value", "the prefix form yields "+v)
+			// the value that was stored (the merge of old+1 / old-1), or what the assignment returned — not a
+			// re-read of the operand cell: for a member that does not exist yet (a[len]) that cell is a
+			// placeholder, the assignment creates the real one (F-27)
+			c.check(incdecStoredForm(v), rule, "incdec-prefix-result", p.InstrPos(rc.Ret), "prefix yields the value that was stored", "the prefix form yields "+v+", not the value that was stored: where the operand is a member that does not exist yet, the operand cell is a placeholder and the result is null")
 		}
 	}
 }
@@ -1138,4 +1153,13 @@ func consumedTokenText(p *Program, r string) bool {
 		return false
 	}
 	return isConsumedTokenHelper(p.LangFunc("(*Parser)." + r[len(pre):len(r)-len(suf)]))
+}
+
+// incdecStoredForm: the rendering of a ++/-- result that is the value stored by the operator — the
+// merge of old+1 and old-1, or the value of the cell evalAssignment returned.
+func incdecStoredForm(v string) bool {
+	if strings.HasPrefix(v, "cell{phi(") && strings.Contains(v, "val((asFloat64(&X.Value) + 1))") && strings.Contains(v, "val((asFloat64(&X.Value) - 1))") {
+		return true
+	}
+	return strings.Contains(v, "evalAssignment(") && strings.HasSuffix(v, "#0.Value}")
 }
